@@ -229,7 +229,7 @@ TInit == /\ Init /\ l = 2 /\ pre = [buckets |-> EmptyFn] /\ ops = EmptyFn /\ res
 TBegin == /\ l <= N /\ Ev.ev = "begin"
           /\ Adopt(Ev.snap)
           /\ pre' = [buckets |-> ObsBuckets(Ev.snap), store |-> ObsStore(Ev.snap),
-                     hasIndex |-> Ev.snap.hasIndex]
+                     hasIndex |-> Ev.snap.hasIndex, tmp |-> Ev.snap.tmp]
           /\ ops' = EmptyFn /\ results' = EmptyFn /\ crashed' = FALSE /\ faults' = 0
           /\ resolv' = Ev.resolvable
           /\ l' = l + 1
@@ -273,6 +273,10 @@ TCrash == /\ l <= N /\ Ev.ev = "crash"
 TEnd == /\ l <= N /\ Ev.ev = "end"
         /\ Adopt(Ev.snap)
         /\ Chk("EndStable", <<buckets', store', ext'>> = <<buckets, store, ext>>)
+        \* C14: once every call has returned and every process is gone, no temp file of theirs
+        \* remains - whether the calls succeeded, were rejected or met an injected error (excused:
+        \* the removal of the temp file itself was made to fail, or a process did not finish)
+        /\ Chk("TmpLeft", (Hdr.mode # "crash" /\ ~Ev.tmpx /\ "tmp" \in DOMAIN pre) => Ev.snap.tmp <= pre.tmp)
         /\ EndOK
         /\ UNCHANGED <<pre, ops, results, crashed, faults, resolv>>
         /\ l' = l + 1
